@@ -129,8 +129,9 @@ class TagAnalysis:
         inline_tags = {tag.name for tag in env.tags.values() if not tag.block}
 
         # We use this to find unknown "end" tags.
+        # Block tags that don't set `end` (`block`, `macro`) follow the "end" convention.
         registered_end_blocks = {
-            tag.end for tag in env.tags.values() if tag.block and tag.end
+            tag.end or f"end{tag.name}" for tag in env.tags.values() if tag.block
         }
 
         for token in tokens:
